@@ -175,6 +175,9 @@ func runSrv(o *Out, r *rand.Rand, focus string) {
 		cases = 700
 	}
 	id := 1
+	// (the experimental AsyncWrite option is not among the modes the properties quantify over: an
+	// error response queued for an asynchronous write races with the connection close that follows
+	// a failed authentication)
 	for _, cfg := range []srvOpts{{}, {pool: true}, {auth: true}, {auth: true, pool: true}} {
 		rig, err := newSrvRig(cfg)
 		if err != nil {
